@@ -192,6 +192,7 @@ impl<'a> GenericDataEncoder<'a> {
             if self.data.starts_with(head) {
                 self.codewords.push(cw);
                 self.data = &self.data[head.len()..self.data.len() - MACRO_TRAIL.len()];
+                self.input = self.data;
                 break;
             }
         }
